@@ -186,6 +186,10 @@ func init() {
 		e.assume(st, tb.Eq(r, tb.And(tb.Eq(a.slLen(), b.slLen()), same)))
 		k(st, scalar(r))
 	}
+	libSpecs["bytes.NewReader"] = func(e *Engine, st *State, fn *ssa.Function, args []Val, pos token.Pos, k Kont) {
+		k(st, scalar(e.newRef(st)))
+	}
+	libSpecs["bytes.NewBuffer"] = libSpecs["bytes.NewReader"]
 	libSpecs["bytes.Repeat"] = func(e *Engine, st *State, fn *ssa.Function, args []Val, pos token.Pos, k Kont) {
 		tb := e.tb
 		b := e.materialiseIfSlice(st, args[0], fn.Signature.Params().At(0).Type())
